@@ -179,6 +179,100 @@ def _affine(fn, b):
     return hits
 
 
+def _cval(ts):
+    """float value of a constant term (literals, PI, products / negations of constants), else None"""
+    c = const_float(ts)
+    if c is not None:
+        return c
+    if len(ts) != 1:
+        return None
+    n = next(iter(ts))
+    if n[0] == 'binop' and n[1] in ('Mul', 'Add', 'Sub', 'Div'):
+        a, b = _cval(n[2]), _cval(n[3])
+        if a is None or b is None:
+            return None
+        try:
+            return {'Mul': a * b, 'Add': a + b, 'Sub': a - b, 'Div': a / b}[n[1]]
+        except ZeroDivisionError:
+            return None
+    if n[0] == 'unop' and n[1] == 'Neg':
+        a = _cval(n[2])
+        return -a if a is not None else None
+    return None
+
+
+def _arc_tie(ctx, ip):
+    """the signed difference an angular interpolation scales by t is, whenever the raw difference of the two (canonical) angles
+    lies within [-pi, pi], that raw difference itself: the only other values it may take are raw - 2 pi under `raw > pi` and
+    raw + 2 pi under `raw < -pi`, both STRICT.  A wrap that also rewrites +pi or -pi (rem_euclid into [-pi, pi), `>=`) sends
+    the motion between the two ends of a half-circle interval the other way round, out of the interval."""
+    PI = math.pi
+    fn = ctx.fn(ip)
+    b = ip
+    tpar = [i for i in range(1, b.arg_count + 1) if b.local_ty(i) == 'f64']
+    scaled = []
+    for bi, blk in enumerate(b.blocks):
+        if blk['cleanup']:
+            continue
+        for si, st in enumerate(blk['stmts']):
+            if st['k'] == 'assign' and st['rv']['k'] == 'binop' and st['rv']['op'] == 'Mul':
+                x, y = fn.op_terms(st['rv']['a'], (bi, si)), fn.op_terms(st['rv']['b'], (bi, si))
+                for (d, tt) in ((x, y), (y, x)):
+                    if tt and all(q[0] == 'param' and q[1] in tpar for q in tt):
+                        scaled.append(d)
+    if not scaled:
+        return ['no product of a difference with the interpolation parameter found (unrecognised shape)']
+    probs = []
+    for d in scaled:
+        raws = [n for n in d if n[0] == 'binop' and n[1] == 'Sub' and _cval(n[3]) is None and _cval(n[2]) is None]
+        if len(raws) != 1:
+            probs.append('the scaled difference is not built from one raw difference of the two angles (unrecognised wrap): ties at +-pi '
+                         'are not shown to keep their direction')
+            continue
+        raw = T(raws[0])
+        for n in d:
+            if n is raws[0]:
+                continue
+            kind = None
+            if n[0] == 'binop' and n[1] == 'Sub' and n[2] == raw and abs((_cval(n[3]) or 0) - 2 * PI) < 1e-9:
+                kind = 'minus'
+            elif n[0] == 'binop' and n[1] == 'Add' and ((n[2] == raw and abs((_cval(n[3]) or 0) - 2 * PI) < 1e-9) or
+                                                        (n[3] == raw and abs((_cval(n[2]) or 0) - 2 * PI) < 1e-9)):
+                kind = 'plus'
+            elif n[0] == 'binop' and n[1] == 'Add' and n[2] == raw and abs((_cval(n[3]) or 0) + 2 * PI) < 1e-9:
+                kind = 'minus'
+            if kind is None:
+                probs.append('the scaled difference can be %s, which is neither the raw difference nor the raw difference moved by a full '
+                             'turn: a wrap applied to differences already within [-pi, pi] rewrites +pi or -pi and reverses the motion '
+                             'between the two ends of a half-circle interval' % fmt_terms(T(n))[:90])
+                continue
+            # where is this alternative computed, and what is known about the raw difference there?
+            sites = []
+            for bi, blk in enumerate(b.blocks):
+                if blk['cleanup']:
+                    continue
+                for si, st in enumerate(blk['stmts']):
+                    if st['k'] == 'assign' and st['rv']['k'] == 'binop' and fn.rvalue_terms(st['rv'], (bi, si)) == T(n):
+                        sites.append(bi)
+            okk = bool(sites)
+            for sb in sites:
+                rel = None
+                for (x, y, rr, _blk) in cmp_facts(fn, sb):
+                    for (p_, q_, r2) in ((x, y, rr), (y, x, {{'lt': 'gt', 'gt': 'lt', 'eq': 'eq', 'un': 'un'}[z] for z in rr})):
+                        c = _cval(q_)
+                        if p_ == raw and c is not None and abs(abs(c) - PI) < 1e-9 and ((c > 0) == (kind == 'minus')):
+                            rel = set(r2) if rel is None else rel & set(r2)
+                want = {'gt'} if kind == 'minus' else {'lt'}
+                if rel is None or not rel <= want:
+                    okk = False
+            if not okk:
+                probs.append('a full turn is %s the raw difference without the strict test `raw %s pi`: a difference of exactly %spi is '
+                             'rewritten to %spi, so between the two ends of a half-circle interval the motion goes the other way round, '
+                             'outside the interval' % ('subtracted from' if kind == 'minus' else 'added to', '>' if kind == 'minus' else '< -',
+                                                       '+' if kind == 'minus' else '-', '-' if kind == 'minus' else '+'))
+    return list(dict.fromkeys(probs))
+
+
 def _convex(ctx, r):
     PI = math.pi
     n = {'box': 0, 'arc': 0, 'cone': 0}
@@ -224,6 +318,13 @@ def _convex(ctx, r):
                     'the constructor accepts angular intervals wider than pi that are not the whole circle; interpolation follows the short arc, '
                     'which for two in-bounds angles on either side of the excluded region runs through that region: the planners store such '
                     'states without consulting the bounds, so a returned path can leave the bounds', loc=ctor.loc(0)))
+            # the tie: for a half-circle interval the two bounds are exactly pi apart; interpolation stays inside only if a
+            # raw difference of exactly +pi (-pi) is kept as it is (walk in the direction of the raw difference)
+            probs = _arc_tie(ctx, ip)
+            r.inst('%s: a raw difference within [-pi, pi] is scaled as it is (only differences strictly beyond +-pi are wrapped)' % name,
+                   ok=not probs, site=ip.loc(0))
+            for o, pr in enumerate(probs):
+                r.violations.append(Violation('C04', 'C04.convex', ip.path, 'arc-tie', pr, loc=ip.loc(0), ordinal=o))
         else:
             n['cone'] += 1
             from ..interval import Interp
